@@ -33,12 +33,17 @@ def plan_inputs(exhaustive=True, rng=None, extra=0):
                         for ck in (0, 7):
                             for rev in (False, True):
                                 out.append({"n": n, "edges": [{"u": u, "v": v} for u, v in es], "dv": dv,
-                                            "name": nm, "clock": ck, "rev": rev})
+                                            "name": nm, "clock": ck, "rev": rev, "half": False})
+    # the same graphs with demands that are not whole numbers (comp k + 1.5, data 2.5)
+    for x in [dict(y) for y in out if y["name"] == "a" and y["clock"] == 7 and not y["rev"]]:
+        x["half"] = True
+        out.append(x)
     for _ in range(extra):
         n = rng.randint(5, 14)
         es = [(u, v) for u in range(n) for v in range(u + 1, n) if rng.random() < 0.25]
         out.append({"n": n, "edges": [{"u": u, "v": v} for u, v in es], "dv": rng.choice(["none", "all", "odd"]),
-                    "name": rng.choice(["a", "obs_x", "emu"]), "clock": rng.randint(0, 50), "rev": rng.random() < 0.4})
+                    "name": rng.choice(["a", "obs_x", "emu"]), "clock": rng.randint(0, 50), "rev": rng.random() < 0.4,
+                    "half": rng.random() < 0.3})
     return out
 
 
@@ -58,9 +63,9 @@ def run_plan(x, wd):
 
     nodes = []
     for k in range(x["n"]):
-        d = {"id": k, "comp": k + 1}
+        d = {"id": k, "comp": k + 1 + (0.5 if x.get("half") else 0)}
         if x["dv"] == "all" or (x["dv"] == "odd" and k % 2 == 1):
-            d["task_data"] = 2
+            d["task_data"] = 2 + (0.5 if x.get("half") else 0)
         nodes.append(d)
     g = {"directed": True, "multigraph": False, "graph": {}, "nodes": nodes,
          "edges": [_edge(x, e) for e in x["edges"]]}
@@ -79,7 +84,8 @@ def run_plan(x, wd):
         plan = planner.run(obs, Buf(), None)
         tasks = []
         for t in plan.tasks:
-            tasks.append({"id": str(t.id), "gid": int(t.graph_id), "flops": int(t.flops), "data": int(t.task_data),
+            tasks.append({"id": str(t.id), "gid": int(t.graph_id), "flops2": _as_int(2 * t.flops, "demand"),
+                          "data2": _as_int(2 * t.task_data, "demand"),
                           "pred": [str(p_) for p_ in t.pred],
                           "io": [{"p": str(a), "v": int(b)} for a, b in (t.io or {}).items()],
                           "qpred": [str(q.id) for q in plan.get_task_predecessors(t)],
@@ -101,9 +107,9 @@ def run_plan_shared(x, wd):
 
     nodes = []
     for k in range(x["n"]):
-        d = {"id": k, "comp": k + 1}
+        d = {"id": k, "comp": k + 1 + (0.5 if x.get("half") else 0)}
         if x["dv"] == "all" or (x["dv"] == "odd" and k % 2 == 1):
-            d["task_data"] = 2
+            d["task_data"] = 2 + (0.5 if x.get("half") else 0)
         nodes.append(d)
     g = {"directed": True, "multigraph": False, "graph": {}, "nodes": nodes,
          "edges": [_edge(x, e) for e in x["edges"]]}
@@ -125,7 +131,8 @@ def run_plan_shared(x, wd):
     def view(plan):
         tasks = []
         for t in plan.tasks:
-            tasks.append({"id": str(t.id), "gid": int(t.graph_id), "flops": int(t.flops), "data": int(t.task_data),
+            tasks.append({"id": str(t.id), "gid": int(t.graph_id), "flops2": _as_int(2 * t.flops, "demand"),
+                          "data2": _as_int(2 * t.task_data, "demand"),
                           "pred": [str(p_) for p_ in t.pred],
                           "io": [{"p": str(a), "v": int(b)} for a, b in (t.io or {}).items()],
                           "qpred": [str(q.id) for q in plan.get_task_predecessors(t)],
@@ -152,6 +159,10 @@ def config_inputs():
             for s, d, r, f, b in itertools.product((0, 3, 7), (1, 5, 7, 15, 29), (1, 4), (2, 7), (1, 3)):
                 out.append({"unit": u, "ui": ui, "start": s, "dur": d, "rate": r, "flops": f, "bw": b,
                             "hotrate": 5, "coldrate": 2})
+            # a `real time` cold tier (non-positive rate) next to an ordinary hot tier
+            for s, d in ((0, 1), (7, 29)):
+                out.append({"unit": u, "ui": ui, "start": s, "dur": d, "rate": 4, "flops": 2, "bw": 3,
+                            "hotrate": 5, "coldrate": -1})
     return out
 
 
@@ -375,6 +386,11 @@ def runtime_records(rng, n):
             for x in (0, 1, 3)]
     for _ in range(n):
         grid.append((rng.randint(0, 60), rng.randint(0, 60), rng.randint(1, 7), rng.randint(1, 5), rng.choice([0, 0, 1, 2, 5])))
+    # exact multiples of larger speeds (work / speed is a whole number of steps)
+    for s in (7, 49, 98, 103, 107, 161, 187, 196):
+        for q in range(1, 9):
+            grid.append((s * q, 0, s, 1, 0))
+            grid.append((1, s * q, 1, s, 0))
     for f, d, c, b, x in grid:
         env = simpy.Environment(initial_time=3)
         t = Task("o_0_0", 0, 0, None, [], f, d, {}, TaskDelay(x, [], ("o", 1)) if x else None, gid=0)
